@@ -794,6 +794,28 @@ class Body:
                             push_op(a)
         return out
 
+    def cast_chain(self, operand, hops=12):
+        """Kinds of the casts an operand went through, following single definitions (copies, casts, derefs), innermost last."""
+        out = []
+        op = operand
+        while hops > 0:
+            hops -= 1
+            p = op_place(op)
+            if p is None or [x for x in p[1] if x != "*"]:
+                break
+            d = self.single_def(p[0])
+            if d is None or d[0] != "assign":
+                break
+            rv = d[3]
+            if rv[0] == "use":
+                op = rv[1]
+            elif rv[0] == "cast":
+                out.append(rv[1])
+                op = rv[2]
+            else:
+                break
+        return out
+
     def derives_from_call(self, operand, pred, **kw):
         return [s[1] for s in self.sources(operand, **kw) if s[0] == "call" and pred(s[1])]
 
